@@ -2,7 +2,7 @@
 from checks import symgen, refqr, refmicro
 
 ID = 'C10'
-PROP_MODULES = ['QRV.Props.C10', 'QRV.Props.C01Micro', 'QRV.Props.C10Penalty']
+PROP_MODULES = ['QRV.Props.C10', 'QRV.Props.C01Micro', 'QRV.Props.C10Penalty', 'QRV.Props.C10Finished']
 RULE = ('QR: every (version, level) pair (quick: a rotating third; thorough: all) and Micro QR: all 8 pairs, with structured payloads, encoded with Mask=auto and with every explicit '
         'mask. Oracle: the auto symbol equals the explicit symbol of the mask its format information names; that mask attains the minimum ISO/IEC 18004 penalty N1+N2+N3+N4 '
         '(reference implementation in checks/refqr.py, N4 in either boundary reading) resp. the maximum Micro QR edge score among all patterns; explicit masks equal the reference '
@@ -19,6 +19,7 @@ MANIFEST = {
              'scores computed on the candidate symbols with format information and dark module in place (qr_auto_is_argmin); the Micro QR loop returns the first pattern attaining the MAXIMUM edge score, and (C01Micro.micro_auto_is_explicit) with Mask=auto the Micro QR model emits exactly the symbol of the explicit pattern that loop returns on the unmasked symbol. '
              'Explicit masks: the canvases are the standard formulas on every module (kernel evaluation, C02) and Mask applies exactly that pattern to exactly the non-function modules (C18). '
              'QRV/Props/C10Penalty.lean proves that the scores are the standard\'s: on every regular n x n bitmap the run, block and finder-pattern counters (transcribed Go loops, incl. the swapped BinaryAt(y, x) of blockCount) equal the declarative N1, N2, N3 of Spec/Penalty.lean and Micro QR\'s score equals the edge score 16 x smaller + larger; N4 is IEEE double arithmetic in Go (Float is opaque to the kernel) and stays the model\'s expression. '
+             'Props/C10Finished.lean states the property on the FINISHED symbols: with Mask=auto the output is one of the 8 (4) explicit outputs and attains the minimum of N1+N2+N3+N4 (maximum edge score) among them, first pattern winning (the scored candidates are proved byte-identical to the finished symbols: format writes commute with Mask). '
              'The complete penalty incl. N4 is compared with an exact-rational reference scorer on finished symbols (optimal under at least one admissible reading of N3/N4).'),
     'note': 'Trusted: Lean kernel; python scorer; pointOnesCount uses float64 in Go and Lean Float in the model (opaque to proofs; irrelevant to the argmin theorem).',
 }
